@@ -22,10 +22,26 @@ func mapKeySort(mt *types.Map) Sort {
 		}
 		return s
 	}
-	// a struct key with exactly one scalar leaf is keyed by that leaf
+	// a struct key with exactly one scalar leaf is keyed by that leaf; with several scalar leaves by an
+	// injective integer code of the tuple (see tupleKey)
 	if _, isStruct := mt.Key().Underlying().(*types.Struct); isStruct {
-		if lfs := leaves(mt.Key()); len(lfs) == 1 && lfs[0].Kind != "opaque" {
+		lfs := leaves(mt.Key())
+		if len(lfs) == 1 && lfs[0].Kind != "opaque" {
+			if strings.HasPrefix(string(lfs[0].Sort), "(Array ") {
+				return SInt
+			}
 			return lfs[0].Sort
+		}
+		if len(lfs) > 1 {
+			ok := true
+			for _, lf := range lfs {
+				if lf.Kind == "opaque" || lf.Kind == "float" {
+					ok = false
+				}
+			}
+			if ok {
+				return SInt
+			}
 		}
 	}
 	if _, ok := mt.Key().Underlying().(*types.Interface); ok {
@@ -58,8 +74,15 @@ func (u *Unit) mapKeyTerm(mt *types.Map, k Value) Term {
 	case IfaceV:
 		return x.Pay
 	case StructV:
-		if ts := u.m.flatten(mt.Key(), x); len(ts) == 1 {
+		ts := u.m.flatten(mt.Key(), x)
+		if len(ts) == 1 {
+			if strings.HasPrefix(string(ts[0].Sort), "(Array ") {
+				return u.arrKey(ts[0])
+			}
 			return ts[0]
+		}
+		if len(ts) > 1 && mapKeySort(mt) == SInt {
+			return u.tupleKey(ts)
 		}
 	}
 	u.unsupportedf("map key of kind %T (%s)", k, typeName(mt.Key()))
@@ -247,4 +270,34 @@ func (fr *Frame) rangeNext(x *ssa.Next, st *State, pc Term) Value {
 	u.c.Assume(And(Le(IntLit(0), r), Le(r, IntLit(0x10FFFF))))
 	st.ghost[it.Key] = u.c.Def("strpos", Ite(okT, Add(pos, width), pos))
 	return TupleV{V: []Value{Scalar{okT}, Scalar{pos}, Scalar{r}}}
+}
+
+// tupleKey codes a tuple of scalar leaves as one integer with an injective pairing function.
+func (u *Unit) tupleKey(ts []Term) Term {
+	code := func(t Term) Term {
+		switch {
+		case t.Sort == SInt:
+			return t
+		case t.Sort == SBool:
+			return Ite(t, IntLit(1), IntLit(0))
+		case strings.HasPrefix(string(t.Sort), "(Array "):
+			return u.arrKey(t)
+		case t.Sort == SStr:
+			if !u.c.funs["strkey"] {
+				u.c.DeclFun("strkey", []Sort{SStr}, SInt)
+				u.c.Raw("(assert (forall ((a Str) (b Str)) (! (=> (= (strkey a) (strkey b)) (= a b)) :pattern ((strkey a) (strkey b)))))")
+			}
+			return app(SInt, "strkey", t)
+		}
+		return t
+	}
+	if !u.c.funs["pairkey"] {
+		u.c.DeclFun("pairkey", []Sort{SInt, SInt}, SInt)
+		u.c.Raw("(assert (forall ((a Int) (b Int) (c Int) (d Int)) (! (=> (= (pairkey a b) (pairkey c d)) (and (= a c) (= b d))) :pattern ((pairkey a b) (pairkey c d)))))")
+	}
+	cur := code(ts[0])
+	for _, t := range ts[1:] {
+		cur = app(SInt, "pairkey", cur, code(t))
+	}
+	return cur
 }
